@@ -9,7 +9,7 @@ import time
 import numpy as np
 import z3
 
-from symx import core, npx
+from symx import core, npx, shadow
 from symx.core import Sym, SymC, lift, RV
 from symx.report import Check, q, cex, note
 from props.volt_common import PF, volt_patches, sym_stream, pfb_spec, cparts, diff_terms
@@ -210,6 +210,88 @@ def job_cache_isolation(P, taps):
     return recs
 
 
+def window_count_slice():
+    """the statements of pfb_frontend that determine the number of complete windows W (everything before the data is
+    reshaped), lifted from the live AST"""
+    import ast
+    import inspect
+    import textwrap
+    fn = ast.parse(textwrap.dedent(inspect.getsource(PF.pfb_frontend))).body[0]
+    body = []
+    for st in fn.body:
+        if isinstance(st, ast.Expr) and isinstance(getattr(st, 'value', None), ast.Constant):
+            continue                                    # docstring
+        names = {n.id for n in ast.walk(st) if isinstance(n, ast.Name)}
+        if any(isinstance(n, ast.Attribute) and n.attr == 'reshape' for n in ast.walk(st)) or 'x_p' in names:
+            break
+        body.append(st)
+    if not any(isinstance(st, ast.Assign) and any(isinstance(t, ast.Name) and t.id == 'W' for t in st.targets) for st in body):
+        raise core.SliceMissing('pfb_frontend: the assignment of the window count W was not found before the reshape')
+    return compile(ast.Module(body=body, type_ignores=[]), '<slice:pfb_frontend window count>', 'exec')
+
+
+def job_window_count(taps, P):
+    """binary64 (delta model; quotients of integers that divide stay exact): for an input of k complete windows the
+    front end finds W = k, for every k <= 2^20"""
+    from symx import fp
+    from symx.fp import FSym
+    fp.reset()
+    fp.EXACT_QUOTIENTS[0] = True
+    recs = []
+    tag = f"C08:window-count:{(taps, P)}"
+    code = window_count_slice()
+    ki = z3.Int('k')
+    pre = [ki >= 1, ki <= 2 ** 20]
+    n = FSym(z3.ToReal(ki) * (taps * P), True)
+
+    class X:
+        def __len__(self):
+            raise core.HarnessError('len() must go through the shadow')
+    x = X()
+
+    def run():
+        env = {'x': x, 'num_taps': taps, 'num_branches': P, 'pfb_window': None, 'xp': npx.NPProxy(), 'np': npx.NPProxy(),
+               'int': shadow.sint, 'float': shadow.sfloat, 'len': lambda o: n if o is x else len(o), 'round': core.rne}
+        exec(code, env)
+        return env['W']
+    try:
+        leaves = core.explore(run, pre, cap=16)
+    finally:
+        fp.EXACT_QUOTIENTS[0] = False
+    conds = []
+    for li, leaf in enumerate(leaves):
+        conds.append(leaf.cond())
+        base = pre + leaf.pc + leaf.side + list(fp.SIDE)
+        name = f"{tag}:leaf{li}"
+        if leaf.kind == 'exc':
+            raise core.HarnessError(f"window-count slice raised {leaf.value!r}")
+        r, m = core.check(base + [lift(leaf.value) != z3.ToReal(ki)], timeout_ms=60000)
+        recs.append(q(name, r))
+        if r == 'sat':
+            recs.append(cex(f'C08:window-count:{taps}x{P}', f"for num_taps={taps}, num_branches={P} some input of k complete windows is counted as W != k in binary64 (candidate k={m.eval(ki, model_completion=True)})",
+                            dict(fn='window_count', taps=taps, P=P, k=int(str(m.eval(ki, model_completion=True)))), name=name))
+    r, _ = core.check(pre + list(fp.SIDE) + [z3.Not(z3.Or(*conds))], timeout_ms=30000)
+    recs.append(q(f"{tag}:split-complete", r))
+    return recs
+
+
+def replay_window_count(p):
+    """search the real front end: input of k windows -> (k - 1) * taps spectra"""
+    from setigen.voltage import polyphase_filterbank as pf
+    taps, P = p['taps'], p['P']
+    w = np.ones(taps * P)
+    for k in sorted(set([p['k']] + list(range(1, 130)) + [2 ** e for e in range(7, 14)] + [3 * 2 ** e + 1 for e in range(5, 12)])):
+        if k * taps * P > 4_000_000:
+            continue
+        try:
+            out = pf.pfb_frontend(np.zeros(k * taps * P), w, taps, P)
+        except Exception as e:
+            return True, f"num_taps={taps}, num_branches={P}: an input of {k} complete windows makes the front end raise {type(e).__name__}: {e}"
+        if out.shape[0] != (k - 1) * taps:
+            return True, f"num_taps={taps}, num_branches={P}: an input of {k} complete windows gives {out.shape[0]} filtered rows, {(k - 1) * taps} expected (window count {out.shape[0] // taps + 1} instead of {k})"
+    return False, 'window counts exact on all searched sizes'
+
+
 WINDOW_FAMILIES = [[(2, 8), (4, 4), (8, 2), (1, 16)], [(3, 4), (2, 6), (6, 2)], [(4, 16), (8, 8), (2, 32)]]
 
 
@@ -366,7 +448,7 @@ def replay_window(p):
     return (not np.array_equal(got, want)), f"window max abs diff {np.max(np.abs(got - want)) if got.shape == want.shape else 'shape'}"
 
 
-REPLAYS = {'pfb': replay_pfb, 'window': replay_window, 'window_history': replay_window_history}
+REPLAYS = {'pfb': replay_pfb, 'window': replay_window, 'window_history': replay_window_history, 'window_count': replay_window_count}
 
 
 def main():
@@ -395,6 +477,9 @@ def main():
             jobs.append(('job_cache_isolation', (P, taps)))
             jobs.append(('job_window_and_rfft', (P, taps, 2)))
     jobs.append(('job_window_history', ()))
+    for taps in ((1, 2, 3, 4, 7, 8) if not ck.thorough else range(1, 17)):
+        for P in ((2, 3, 6, 7, 10, 14, 49, 64, 100) if not ck.thorough else (2, 3, 5, 6, 7, 10, 12, 14, 17, 23, 24, 49, 64, 100, 1000, 1024)):
+            jobs.append(('job_window_count', (taps, P)))
     # branch counts that are not powers of two (DFT twiddles as uninterpreted complex constants, one set per length):
     # catches any use of a transform length other than num_branches
     for P in ((3, 6, 13) if not ck.thorough else (3, 5, 6, 7, 12, 13, 26)):
